@@ -47,6 +47,8 @@ CfgDefault == [ maxId      |-> 3,       \* session ids wrap after maxId (65535 i
                 subTTL |-> 12, refresh |-> 4, \* SUBSCRIBE_TTL, SUBSCRIBE_REFRESH_INTERVAL (0 = None)
                 egs |-> <<>>,          \* [eventgroup name -> [ep |-> name of its local endpoint option]]
                 findTTL |-> 3,
+                events |-> <<>>, values0 |-> <<>>, egInterval |-> 0,
+                epOrders |-> {<<>>},   \* iteration orders of the subscribed-endpoint set a round may use (<<>> = one canonical order)   \* SimpleEventgroup: event ids in order, initial values, cyclic interval
                 peers |-> <<>> ]
 
 \* all deviation switches off = the intended design; AsShipped = the pinned commit 06eaa50
@@ -67,9 +69,11 @@ AllOff == [ DeferExpiryNotify   |-> FALSE,  \* D1  TimedStore._expired defers it
             CancelCollectorsOnStop |-> FALSE, \* spec mutant: stop() cancels the collectors' timers but leaves them open
             AckBeforeListener   |-> FALSE,  \* spec mutant: a rejected subscription is acknowledged positively
             FindIgnoresFound    |-> FALSE,  \* spec mutant: find rounds list every watched filter, found or not
-            StopSubNotDeferred  |-> FALSE ] \* spec mutant: StopSubscribe sent at once, overtaking a queued Subscribe
+            StopSubNotDeferred  |-> FALSE,  \* spec mutant: StopSubscribe sent at once, overtaking a queued Subscribe
+            NotifyOnceConsumesIterator |-> FALSE ] \* D9  notify_once(one-shot iterable): only the first endpoint gets the events
 AsShipped == [AllOff EXCEPT !.DeferExpiryNotify = TRUE, !.DeferStopAllNotify = TRUE, !.DeferRebootFanout = TRUE,
                             !.IgnoreWhenUnwatched = TRUE, !.DeferWatchReplay = TRUE, !.DeferHandleOffer = TRUE,
+                            !.NotifyOnceConsumesIterator = TRUE,
                             !.FindAnswerIgnoresStop = TRUE, !.NonCyclicKeepsAnswering = TRUE, !.StopTwiceRaises = TRUE]
 
 -----------------------------------------------------------------------------
@@ -433,11 +437,67 @@ FindStep(s, tk) ==
        ELSE LET s1 == SendSD(s, "mc", es) IN
             IF t.i < Cfg.reps THEN Sleep(s1, tk, Pow2(t.i) * Cfg.base, 1, t.i + 1) ELSE TaskDone(s1, tk)
 
+-----------------------------------------------------------------------------
+(* --------------- SimpleEventgroup / SimpleService notifications (C17) ------ *)
+\* s.eg = [subs (set of endpoint names), values ([event -> value]), cyc (id of the cyclic task or 0),
+\*         cycWait (the cyclic task is blocked on has_clients), gather ([round id -> tasks still running])]
+\* tasks: "ninit"/"nsingle" [ep, evs]  one datagram with one notification per event for one endpoint;
+\*        "nall" [evs]  explicit round: snapshot of the endpoints, one nsingle each (asyncio.gather);
+\*        "cyc"  cyclic_notify: wait for clients, sleep the interval, round, again
+NtxEvents(s, ep, evs) ==   \* notifications use the service's own session counters, one per destination
+  LET F[i \in 0..Len(evs)] ==
+        IF i = 0 THEN s
+        ELSE LET r == AssignOut(F[i - 1], <<"svc", ep>>)
+             IN Out(r[1], [k |-> "out", op |-> "ntx", dst |-> ep, sid |-> r[2][2], ev |-> evs[i], val |-> s.eg.values[evs[i]]])
+  IN F[Len(evs)]
+NewTask(s, rec) == LET tk == NewTaskId(s) IN
+  <<CallSoon([s EXCEPT !.tasks = Put(@, tk, [st |-> "created", pc |-> 0, i |-> 0, must |-> FALSE, inst |-> ""] @@ rec)],
+             [kind |-> "step", tk |-> tk]), tk>>
+RECURSIVE SpawnSingles(_, _, _, _)
+SpawnSingles(s, eps, evs, round) ==
+  IF eps = <<>> THEN s
+  ELSE SpawnSingles(NewTask(s, [kind |-> "nsingle", ep |-> Head(eps), evs |-> evs, round |-> round])[1], Tail(eps), evs, round)
+AllEvents == Cfg.events
+\* the subscribed endpoints in the iteration order chosen for this step (a Python set: any order)
+EpSeq(s) == IF s.pick = <<>> THEN SetToSeq(s.eg.subs) ELSE SelectSeq(s.pick, LAMBDA ep : ep \in s.eg.subs)
+EgSub(s, ep) ==
+  LET s1 == [s EXCEPT !.eg.subs = @ \cup {ep}]
+      s2 == IF s.eg.cycWait /\ s.eg.cyc # 0        \* has_clients.set() wakes the blocked cyclic task
+            THEN CallSoon([s1 EXCEPT !.eg.cycWait = FALSE, !.tasks[s.eg.cyc].pc = 2], [kind |-> "step", tk |-> s.eg.cyc]) ELSE s1
+  IN NewTask(s2, [kind |-> "ninit", ep |-> ep, evs |-> AllEvents, round |-> 0])[1]
+EgUnsub(s, ep) == [s EXCEPT !.eg.subs = @ \ {ep}]
+EgNotify(s, evs) == IF s.eg.subs = {} THEN s ELSE NewTask(s, [kind |-> "nall", evs |-> evs, round |-> 0])[1]
+CycContinue(s, tk) ==     \* top of the loop: wait for clients (no yield when there are some), then sleep
+  IF s.eg.subs = {} THEN [s EXCEPT !.eg.cycWait = TRUE, !.tasks[tk].st = "blocked"]
+  ELSE Sleep(s, tk, Cfg.egInterval, 1, 0)
+EgStep(s, tk) ==
+  LET t == s.tasks[tk] IN
+  CASE t.kind \in {"ninit", "nsingle"} ->
+         LET s1 == TaskDone(NtxEvents(s, t.ep, t.evs), tk) IN
+         IF t.round = 0 THEN s1
+         ELSE LET left == s1.eg.gather[t.round] - 1 IN       \* gather: the waiting task resumes after the last one
+              IF left > 0 THEN [s1 EXCEPT !.eg.gather[t.round] = left]
+              ELSE CallSoon([s1 EXCEPT !.eg.gather = Remove(@, t.round)], [kind |-> "step", tk |-> t.round])
+    [] t.kind = "nall" ->
+         LET eps == EpSeq(s) IN
+         IF Sw.NotifyOnceConsumesIterator /\ eps # <<>>
+         THEN TaskDone(SpawnSingles(SpawnSingles(s, <<Head(eps)>>, t.evs, 0), Tail(eps), <<>>, 0), tk)
+         ELSE TaskDone(SpawnSingles(s, eps, t.evs, 0), tk)
+    [] t.kind = "cyc" ->
+         IF t.pc = 1        \* the interval is over: a round to whoever is subscribed now
+         THEN IF s.eg.subs = {} THEN CycContinue(s, tk)
+              ELSE SpawnSingles([s EXCEPT !.eg.gather = Put(@, tk, Cardinality(s.eg.subs)), !.tasks[tk].st = "blocked", !.tasks[tk].pc = 3],
+                                EpSeq(s), AllEvents, tk)
+         ELSE IF t.pc = 2 THEN Sleep(s, tk, Cfg.egInterval, 1, 0)   \* woken by has_clients.set(): wait() returns True even
+                                                                  \* if the event was cleared again meanwhile
+         ELSE CycContinue(s, tk)      \* pc 0 first step, pc 3 round finished
+
 TaskStep(s, tk) ==
   IF tk \notin DOMAIN s.tasks THEN s
   ELSE CASE s.tasks[tk].kind = "offer" -> OfferStep(s, tk)
          [] s.tasks[tk].kind = "sub"   -> SubStep(s, tk)
          [] s.tasks[tk].kind = "find"  -> FindStep(s, tk)
+         [] OTHER -> EgStep(s, tk)
 
 -----------------------------------------------------------------------------
 (* ----------------- ServiceDiscoveryProtocol: receive path ---------------- *)
@@ -498,6 +558,12 @@ Input(s, e) ==      \* an environment input, delivered as an I/O callback
     [] e.op = "unsubscribe" -> UnsubscribeEg(s0, e.g, e.srv)
     [] e.op = "disc_start" -> DiscStart(s0)
     [] e.op = "disc_stop"  -> DiscStop(s0)
+    [] e.op = "eg_create" -> IF Cfg.egInterval = 0 THEN s0          \* SimpleEventgroup(interval=...): cyclic task only with an interval
+                             ELSE LET r == NewTask(s0, [kind |-> "cyc"]) IN [r[1] EXCEPT !.eg.cyc = r[2]]
+    [] e.op = "eg_sub"    -> EgSub(s0, e.ep)
+    [] e.op = "eg_unsub"  -> EgUnsub(s0, e.ep)
+    [] e.op = "eg_set"    -> [s0 EXCEPT !.eg.values[e.ev] = e.val]
+    [] e.op = "eg_notify" -> EgNotify(s0, e.evs)
     \* a bare TimedStore driven through its public methods (C09)
     [] e.op = "ts_refresh"  -> TSRefresh(s0, "ts", e.a, e.key, e.ttl)
     [] e.op = "ts_stop"     -> TSStop(s0, "ts", e.a, e.key)
@@ -533,8 +599,9 @@ Init ==
         sessIn |-> <<>>, sessOut |-> <<>>, peer |-> <<>>, watch |-> Cfg.watch0, wkeys |-> IF Cfg.wkeys0 # <<>> THEN Cfg.wkeys0 ELSE SetToSeq(UNION Range(Cfg.watch0) \ {"ALL"}),
         store |-> [found |-> {}, ts |-> {}] @@ [i \in DOMAIN Cfg.inst |-> {}],
         started |-> FALSE, ann |-> Cfg.ann0, inst |-> [i \in DOMAIN Cfg.inst |-> [task |-> 0, can |-> FALSE]],
-        tasks |-> <<>>, queues |-> <<>>, ch |-> 0,
-        sub |-> [alive |-> FALSE, task |-> 0, list |-> <<>>], disc |-> [task |-> 0] ]
+        tasks |-> <<>>, queues |-> <<>>, ch |-> 0, pick |-> <<>>,
+        sub |-> [alive |-> FALSE, task |-> 0, list |-> <<>>], disc |-> [task |-> 0],
+        eg |-> [subs |-> {}, values |-> Cfg.values0, cyc |-> 0, cycWait |-> FALSE, gather |-> <<>>] ]
 
 \* inputs applicable now (a listener registers under one filter at a time: DESIGN §9)
 Applicable(st, e) ==
@@ -547,6 +614,9 @@ Applicable(st, e) ==
     \* (C14: no duplicate subscribes of one eventgroup to one server)
     [] e.op = "subscribe" -> ~\E n \in DOMAIN st.sub.list : st.sub.list[n] = <<e.g, e.srv>>
     [] e.op = "disc_start" -> st.disc.task = 0
+    [] e.op = "eg_create" -> st.eg.cyc = 0 /\ st.ev = 0       \* the eventgroup is constructed first
+    [] e.op = "eg_sub"   -> e.ep \notin st.eg.subs /\ (Cfg.egInterval = 0 \/ st.eg.cyc # 0)
+    [] e.op = "eg_unsub" -> e.ep \in st.eg.subs
     [] OTHER -> TRUE
 
 \* the part of the state that decides applicability, as it will be after input e has run
@@ -561,6 +631,9 @@ Flag(st, e) ==
     [] e.op = "unsubscribe" -> [st EXCEPT !.sub.list = SelectSeq(@, LAMBDA p : p # <<e.g, e.srv>>)]
     [] e.op = "disc_start" -> [st EXCEPT !.disc.task = 1]
     [] e.op = "disc_stop" -> [st EXCEPT !.disc.task = 0]
+    [] e.op = "eg_create" -> [st EXCEPT !.eg.cyc = 1, !.ev = 1]
+    [] e.op = "eg_sub"   -> [st EXCEPT !.eg.subs = @ \cup {e.ep}]
+    [] e.op = "eg_unsub" -> [st EXCEPT !.eg.subs = @ \ {e.ep}]
     [] OTHER -> st
 RECURSIVE AllApplicable(_, _)
 AllApplicable(st, ins) ==
@@ -614,7 +687,7 @@ Run ==
   /\ s.todo > 0
   /\ LET c  == Head(s.ready)
          s0 == [s EXCEPT !.ready = Tail(@), !.todo = @ - 1, !.outs = <<>>]
-     IN \E ch \in Cfg.randVals : s' = [Effect([s0 EXCEPT !.ch = ch], c) EXCEPT !.ch = 0]
+     IN \E ch \in Cfg.randVals, pk \in Cfg.epOrders : s' = [Effect([s0 EXCEPT !.ch = ch, !.pick = pk], c) EXCEPT !.ch = 0, !.pick = <<>>]
 
 \* nothing ready, nothing due: the loop is idle; time passes -- one tick, or straight to the next
 \* deadline (the environment can therefore act just before, at and after every deadline)
